@@ -81,6 +81,9 @@ func (w *World) allocSingleStore(a *ssa.Alloc) ssa.Value {
 		// the store must precede every use (a declared-but-unassigned variable holds its zero
 		// value until a later store, e.g. one made by a goroutine)
 		for _, u := range uses {
+			if u.Block() == fn.Recover {
+				continue // the load of a named result in the recover block is never forwarded (see Resolve)
+			}
 			if !instrDominates(stores[0], u) {
 				ok = false
 			}
@@ -152,7 +155,7 @@ func (w *World) Resolve(v ssa.Value) ssa.Value {
 		case *ssa.UnOp:
 			if x.Op == token.MUL {
 				addr := w.resolveAddr(x.X)
-				if a, ok := addr.(*ssa.Alloc); ok {
+				if a, ok := addr.(*ssa.Alloc); ok && !(x.Block() != nil && x.Block() == x.Parent().Recover) {
 					if s := w.allocSingleStore(a); s != nil {
 						v = s
 						continue
